@@ -359,29 +359,52 @@ def run_path(case, drv):
     return res
 
 
-def run_crossing(case, drv):
+def _own_maxloss(case, f):
+    """independent lookup: first listed frequency range that contains the carrier (both ends inclusive); no ranges: 0"""
+    if not case['ranges']:
+        return 0.0
+    for lo, hi, ml in case['ranges']:
+        if lo <= f <= hi:
+            return ml
+    return None
+
+
+def _one_crossing(case, drv, res, r, freq, baud, slot, pin_dbm, offset, tag):
+    """one spectrum through the (possibly already used) Roadm object r: correspondence + monitor"""
     from gnpy.core.info import create_arbitrary_spectral_information
     from gnpy.core.utils import dbm2watt, watt2dbm
-    res = Result()
-    r = _mk_roadm(case)
-    pin_w = [float(dbm2watt(x)) for x in case['pin_dbm']]
-    si = create_arbitrary_spectral_information(case['freq'], pch=pin_w, baud_rate=case['baud'], tx_osnr=40.0,
-                                               tx_power=pin_w, delta_pdb_per_channel=case['offset'],
-                                               slot_width=case['slot'], label='x')
+    pin_w = [float(dbm2watt(x)) for x in pin_dbm]
+    si = create_arbitrary_spectral_information(freq, pch=pin_w, baud_rate=baud, tx_osnr=40.0,
+                                               tx_power=pin_w, delta_pdb_per_channel=offset,
+                                               slot_width=slot, label='x')
     ratios_before = (si._signal_ratio.copy(), si._ase_ratio.copy(), si._nli_ratio.copy())
     pin_arr = si.pch.copy()
-    maxloss = r.get_impairment('roadm-maxloss', si.frequency, case['from'], case['degree'])
-    maxloss = [float(x) for x in np.broadcast_to(maxloss, (len(pin_w),))]
+    # per-carrier path loss: implementation vs model lookup (first matching range) vs own lookup
+    impl_ml = r.get_impairment('roadm-maxloss', si.frequency, case['from'], case['degree'])
+    impl_ml = [float(x) for x in np.broadcast_to(impl_ml, (len(pin_w),))]
+    profs = []
+    if case['ranges']:
+        profs = [{'id': 7, 'ptype': 'express', 'bands': [[f2b(lo), f2b(hi), f2b(ml)] for lo, hi, ml in case['ranges']]}]
+    pans = drv.ask('c06.profile', profiles=profs, user=(7 if case['ranges'] else None), ptype='express',
+                   freqs=fl(si.frequency))
+    model_ml = [None if x is None else b2f(x) for x in pans['maxloss']]
+    res.cmp_exact(f'Roadm.get_impairment[roadm-maxloss]{tag}', impl_ml, model_ml)
+    maxloss = [_own_maxloss(case, float(f)) for f in si.frequency]
+    for i, (a_, b_) in enumerate(zip(impl_ml, maxloss)):
+        if b_ is not None and abs(a_ - b_) > 1e-12:
+            res.fail(f'path loss lookup{tag}: carrier {i} at {float(si.frequency[i])} Hz gets max loss {a_} dB, its frequency '
+                     f'range says {b_} dB', channel=i)
+            break
     si = r(si, degree=case['degree'], from_degree=case['from'])
     out = [float(x) for x in si.pch]
-    ans = drv.ask('c06.propagate', p=fl(pin_arr), maxloss=fl(maxloss), offset=fl(case['offset']),
-                  baud=fl(case['baud']), slot=fl(case['slot']), degree=case['degree'],
+    ans = drv.ask('c06.propagate', p=fl(pin_arr), maxloss=fl(maxloss), offset=fl(offset),
+                  baud=fl(baud), slot=fl(slot), degree=case['degree'],
                   node=_node_json(case['node']), per=_per_json(case['per']), ref_in=f2b(case['ref_in']),
                   ref_baud=f2b(case['ref_baud']), ref_slot=f2b(case['ref_slot']))
-    res.cmp_floats('Roadm.propagate.pch', out, [b2f(x) for x in ans['out']])
-    res.cmp_float('Roadm.ref_pch_out_dbm', r.ref_pch_out_dbm, b2f(ans['ref_out']), abs_=1e-9)
-    res.cmp_float('Roadm.ref_effective_loss', r.ref_effective_loss, b2f(ans['ref_loss']), abs_=1e-9)
-    res.cmp_floats('Roadm.pch_out_dbm', r.pch_out_dbm, [float(watt2dbm(b2f(x))) for x in ans['out']], abs_=1e-9)
+    res.cmp_floats(f'Roadm.propagate.pch{tag}', out, [b2f(x) for x in ans['out']])
+    res.cmp_float(f'Roadm.ref_pch_out_dbm{tag}', r.ref_pch_out_dbm, b2f(ans['ref_out']), abs_=1e-9)
+    res.cmp_float(f'Roadm.ref_effective_loss{tag}', r.ref_effective_loss, b2f(ans['ref_loss']), abs_=1e-9)
+    res.cmp_floats(f'Roadm.pch_out_dbm{tag}', r.pch_out_dbm, [float(watt2dbm(b2f(x))) for x in ans['out']], abs_=1e-9)
     # ---- monitor: the property itself, evaluated independently on the implementation's output
     deg = case['degree']
     above = below = 0
@@ -389,35 +412,57 @@ def run_crossing(case, drv):
         if deg in case['per']['pch']:
             t = case['per']['pch'][deg]
         elif deg in case['per']['psd']:
-            t = 10 * math.log10(case['baud'][i] * case['per']['psd'][deg] * 1e-9)
+            t = 10 * math.log10(baud[i] * case['per']['psd'][deg] * 1e-9)
         elif deg in case['per']['psw']:
-            t = 10 * math.log10(case['slot'][i] * case['per']['psw'][deg] * 1e-9)
+            t = 10 * math.log10(slot[i] * case['per']['psw'][deg] * 1e-9)
         elif 'pch' in case['node']:
             t = case['node']['pch']
         elif 'psd' in case['node']:
-            t = 10 * math.log10(case['baud'][i] * case['node']['psd'] * 1e-9)
+            t = 10 * math.log10(baud[i] * case['node']['psd'] * 1e-9)
         else:
-            t = 10 * math.log10(case['slot'][i] * case['node']['psw'] * 1e-9)
+            t = 10 * math.log10(slot[i] * case['node']['psw'] * 1e-9)
         in_dbm = 10 * math.log10(pin_arr[i] * 1e3)
-        exp = min(t + case['offset'][i], in_dbm - maxloss[i])
+        exp = min(t + offset[i], in_dbm - maxloss[i])
         got = 10 * math.log10(out[i] * 1e3)
-        if t + case['offset'][i] < in_dbm - maxloss[i]:
+        if t + offset[i] < in_dbm - maxloss[i]:
             above += 1
         else:
             below += 1
         if abs(got - exp) > 1e-6:
-            res.fail(f'egress power: channel {i} leaves at {got:.6f} dBm, min(target+offset, in-loss) = {exp:.6f} dBm',
+            res.fail(f'egress power{tag}: channel {i} leaves at {got:.6f} dBm, min(target+offset, in-loss) = {exp:.6f} dBm',
                      cls='unlisted', channel=i)
         if out[i] > pin_arr[i] * (1 + 1e-9):
-            res.fail(f'amplifies: channel {i} leaves with {out[i]} W > {pin_arr[i]} W in', cls='unlisted', channel=i)
+            res.fail(f'amplifies{tag}: channel {i} leaves with {out[i]} W > {pin_arr[i]} W in', cls='unlisted', channel=i)
     for a, b in zip(ratios_before, (si._signal_ratio, si._ase_ratio, si._nli_ratio)):
         if not np.array_equal(a, b):
             res.fail('ratios: ROADM changed the signal/ASE/NLI shares', cls='unlisted')
+    return above, below, len(out)
+
+
+def run_crossing(case, drv):
+    res = Result()
+    r = _mk_roadm(case)
+    above, below, nch = _one_crossing(case, drv, res, r, case['freq'], case['baud'], case['slot'], case['pin_dbm'],
+                                      case['offset'], '')
+    second = 0
+    if nch >= 3 and case.get('again', True):
+        # the SAME Roadm object is crossed again by another comb with the same channel count and the same first and last
+        # carrier: the interior carriers are mirrored, so they fall differently into the frequency ranges
+        n = nch
+        f0, f1 = case['freq'][0], case['freq'][-1]
+        freq2 = [f0 + f1 - case['freq'][n - 1 - i] for i in range(n)]
+        slot2 = [case['slot'][n - 1 - i] for i in range(n)]
+        baud2 = [case['baud'][n - 1 - i] for i in range(n)]
+        pin2 = [case['pin_dbm'][n - 1 - i] for i in range(n)]
+        if all(freq2[i] + slot2[i] / 2 <= freq2[i + 1] - slot2[i + 1] / 2 for i in range(n - 1)):
+            _one_crossing(case, drv, res, r, freq2, baud2, slot2, pin2, case['offset'], ' (second comb, same object)')
+            second = 1
+    deg = case['degree']
     has_override = any(deg in case['per'][p] for p in POL)
     res.nontrivial = (above > 0 and below > 0) or has_override
     res.stats.update({'crossing': 1, f'policy_{list(case["node"])[0]}': 1, 'degree_override': int(has_override),
                       'channels_above_target': above, 'channels_below_target': below,
-                      'with_maxloss': int(bool(case['ranges'])), f'nch_{len(out)}': 1})
+                      'with_maxloss': int(bool(case['ranges'])), f'nch_{nch}': 1, 'crossing_second_comb': second})
     return res
 
 
